@@ -212,12 +212,10 @@ func FQStep(st *FQState, in FQOp, out FQOut) (bool, *FQState) {
 		}
 		return out.Err == ErrNone && out.QClass == q, st
 	case "SFee":
-		q, ok := st.Miners[in.Miner]
-		if !ok {
-			return out.Err == ErrNoMiner, st
-		}
-		id, e := feeOf(q, in.Type)
-		return out.Fee == id && out.Err == e, st
+		// Not constrained here: FeeQuotes.Fee is a two-level read (which quote does the miner have, what does that quote
+		// charge). The property promises that a read returns a value some write stored, not that the two levels are read
+		// in one atomic step; it is judged separately (SFeeExplained).
+		return true, st
 	case "SUpdate":
 		if in.Empty {
 			return out.Err == ErrEmpty, st
@@ -313,6 +311,16 @@ func ExpiredExplained(h []Interval, initExpiry, initClock int64) string {
 		}
 		es := cands("QUpdateExpiry", op.In.Quote, initExpiry)
 		cs := cands("ClockSet", 0, initClock)
+		if op.Out.Bool {
+			// "expired" may be latched: any clock value shown up to the end of the call can explain it (a wall clock
+			// that is stepped back does not un-expire a quote); "not expired" needs a value shown during the call
+			cs = []int64{initClock}
+			for _, o := range h {
+				if o.In.Kind == "ClockSet" && o.Call <= op.Ret {
+					cs = append(cs, o.In.Time)
+				}
+			}
+		}
 		ok := false
 		for _, e := range es {
 			for _, c := range cs {
@@ -326,4 +334,86 @@ func ExpiredExplained(h []Interval, initExpiry, initClock int64) string {
 		}
 	}
 	return ""
+}
+
+// SFeeExplained checks every FeeQuotes.Fee(miner, type) answer of a history against what the property promises: a fee
+// that is returned is the library default or one that some write of that fee type (AddQuote, UpdateMinerFees, a
+// restored document) stored, and that write had been invoked before the read returned; "no such miner" needs the
+// miner not to have been registered before the call began (miners are never removed); "no such fee type" needs a
+// restore that drops the type. minersAtStart are the miners registered before the tasks started.
+func SFeeExplained(h []Interval, minersAtStart map[string]bool) string {
+	for _, op := range h {
+		if op.In.Kind != "SFee" {
+			continue
+		}
+		switch {
+		case op.Out.Err == ErrNone:
+			if op.Out.Fee == DefaultFee {
+				continue
+			}
+			ok := false
+			for _, w := range h {
+				if w.Call >= op.Ret {
+					continue
+				}
+				switch w.In.Kind {
+				case "QAdd", "SUpdate":
+					if w.In.Fee == op.Out.Fee && w.In.Type == op.In.Type && !w.In.Empty {
+						ok = true
+					}
+				case "QUnmarshal":
+					if w.In.DocOK && w.In.Doc[op.In.Type] == op.Out.Fee {
+						ok = true
+					}
+				}
+			}
+			if !ok {
+				return fmt.Sprintf("FeeQuotes.Fee(%s,%s) over [%d..%d] returned fee#%d, which no write of that fee type invoked before the read returned ever stored", op.In.Miner, op.In.Type, op.Call, op.Ret, op.Out.Fee)
+			}
+		case op.Out.Err == ErrNoMiner:
+			registered := minersAtStart[op.In.Miner]
+			for _, w := range h {
+				if (w.In.Kind == "SAddMiner" || w.In.Kind == "SAddDefault") && w.In.Miner == op.In.Miner && w.Ret < op.Call {
+					registered = true
+				}
+			}
+			if registered {
+				return fmt.Sprintf("FeeQuotes.Fee(%s,%s) over [%d..%d] says the miner has no quotes, but it was registered before the call began and miners are never removed", op.In.Miner, op.In.Type, op.Call, op.Ret)
+			}
+		case op.Out.Err == ErrTypeMissing:
+			ok := false
+			for _, w := range h {
+				if w.In.Kind == "QUnmarshal" && w.In.DocOK && w.Call < op.Ret {
+					if _, has := w.In.Doc[op.In.Type]; !has {
+						ok = true
+					}
+				}
+			}
+			if !ok {
+				return fmt.Sprintf("FeeQuotes.Fee(%s,%s) over [%d..%d] says the fee type is missing, but no restore that drops it was invoked before the read returned", op.In.Miner, op.In.Type, op.Call, op.Ret)
+			}
+		default:
+			return fmt.Sprintf("FeeQuotes.Fee(%s,%s) over [%d..%d] failed with %s", op.In.Miner, op.In.Type, op.Call, op.Ret, op.Out.Err)
+		}
+	}
+	return ""
+}
+
+// ExpiredAtQuiescence: with every task finished, may Expired() answer x for a quote whose Expiry() is e while the
+// clock shows now? "false" must be the plain comparison. "true" is also accepted when the comparison says false but
+// the clock has, at some earlier instant of the history, shown a value beyond e: an implementation may latch
+// "expired" (timers run on elapsed time; a wall clock that is stepped back does not un-expire a quote).
+func ExpiredAtQuiescence(x bool, e, now int64, clocksShown []int64) bool {
+	want := e < now
+	if x == want {
+		return true
+	}
+	if x && !want {
+		for _, c := range clocksShown {
+			if e < c {
+				return true
+			}
+		}
+	}
+	return false
 }
